@@ -451,10 +451,6 @@ Definition site_table : list site := [
     "ParsingError message lists duplicated file names in set order; raised before anything is written";
   St "client_generators/package.py" "PackageGenerator._validate_unique_file_names" "member" "seen" SkMember "";
   St "client_generators/package.py" "PackageGenerator._validate_unique_file_names" "size" "set(file_names)" SkMember "";
-  St "client_generators/result_fields.py" "parse_interface_type" "construct"
-    "{f.type_condition.name.value for f in inline_fragments + fragments_on_subtypes}" SkNone "";
-  St "client_generators/result_fields.py" "parse_interface_type" "sorted"
-    "{f.type_condition.name.value for f in inline_fragments + fragments_on_subtypes}" SkSorted "";
   St "client_generators/result_types.py" "ResultTypesGenerator.__init__" "construct" "set()" SkNone "";
   St "client_generators/result_types.py" "ResultTypesGenerator._add_enums_scalars_fragments_imports" "sorted"
     "self._fragments_used_as_mixins" SkSorted "since 93e79d6 (op_import_names)";
@@ -569,7 +565,23 @@ Definition site_table : list site := [
   St "utils.py" "process_name" "construct" "set(name)" SkNone "";
   St "utils.py" "process_name" "construct" "{'_'}" SkNone "";
   St "utils.py" "process_name" "eq" "set(name)" SkMember "";
-  St "utils.py" "process_name" "eq" "{'_'}" SkMember ""
+  St "utils.py" "process_name" "eq" "{'_'}" SkMember "";
+  St "client_generators/client.py" "ClientGenerator.get_variable_names" "construct"
+    "{self._gql_func_name}" SkNone "names the method body calls (6bef770): membership only";
+  St "client_generators/client.py" "ClientGenerator.get_variable_names" "member"
+    "called_names" SkMember "names the method body calls (6bef770): membership only";
+  St "client_generators/input_types.py" "InputTypesGenerator._parse_input_definition" "construct"
+    "set()" SkNone "Python names already used in the input class (bec4417): membership only";
+  St "client_generators/input_types.py" "InputTypesGenerator._parse_input_definition" "member"
+    "used_names" SkMember "Python names already used in the input class (bec4417): membership only";
+  St "client_generators/result_fields.py" "parse_interface_type" "construct"
+    "{f.type_condition.name.value for f in inline_fragments + fragments_on_subtypes if f.type_condition.name.value not in own_interfaces}" SkNone "interfaces the position's type implements (568dfd8)";
+  St "client_generators/result_fields.py" "parse_interface_type" "construct"
+    "{interface.name for interface in type_.interfaces}" SkNone "interfaces the position's type implements (568dfd8)";
+  St "client_generators/result_fields.py" "parse_interface_type" "member"
+    "own_interfaces" SkMember "interfaces the position's type implements (568dfd8)";
+  St "client_generators/result_fields.py" "parse_interface_type" "sorted"
+    "{f.type_condition.name.value for f in inline_fragments + fragments_on_subtypes if f.type_condition.name.value not in own_interfaces}" SkSorted "interfaces the position's type implements (568dfd8)"
 ].
 
 (* Rows whose sink the scan's intra-procedural data-flow cannot derive (the value escapes the function): the
